@@ -668,6 +668,19 @@ package badger
 //@   assert[synced-and-closed-before-rename] before call Rename : called(Write#1) && ret1(Write#1) == nil && called(Sync#1) && ret(Sync#1) == nil && called(Close#4) && ret(Close#4) == nil
 //@   assert[creations-counted] before return : result2 == nil ==> result1 == old(len(m.Tables))
 
+// ReplayManifestFile: a change set is applied only after its payload was read in full and its
+// checksum matched; reading stops at the first incomplete record, and the returned truncation
+// offset is the offset at which that record started (the end of the last complete one).
+//@ func ReplayManifestFile
+//@   props C09 C17
+//@   light
+//@   assert[record-start-remembered] before call ReadFull#2 : offset == r.count
+//@   assert[payload-length-as-recorded] before call ReadFull#3 : len(arg1) == int(ret(BytesToU32#1))
+//@   assert[checksum-of-payload] before call Checksum : arg0 == buf
+//@   assert[checksum-matches-before-decode] before call Unmarshal : called(Checksum#1) && ret(Checksum#1) == ret(BytesToU32#2) && arg0 == buf
+//@   assert[decoded-before-applied] before call applyChangeSet : called(Unmarshal#1) && ret(Unmarshal#1) == nil
+//@   assert[truncate-at-last-complete-record] before return#12 : result2 == nil && result1 == offset
+
 //@ func applyChangeSet
 //@   props C17
 //@   light
